@@ -9,6 +9,7 @@ import (
 	"bufio"
 	"flag"
 	"fmt"
+	"math"
 	"math/rand"
 	"os"
 	"strconv"
@@ -212,6 +213,11 @@ func main() {
 		if r.Intn(6) == 0 {
 			q = uint64(20 + r.Intn(80))
 		}
+		huge := i%15 == 7
+		if huge {
+			// "unlimited": quantities around and above MaxInt64 are valid rates
+			q = []uint64{math.MaxUint64, math.MaxInt64 + 1, math.MaxInt64, 1 << 40}[r.Intn(4)]
+		}
 		interval := time.Duration(200+r.Intn(1800)) * time.Microsecond
 		long := i%10 == 0
 		if long {
@@ -226,7 +232,12 @@ func main() {
 		rounds := 1 + r.Intn(6)
 		for k := 0; k < rounds && !s.done; k++ {
 			// element counts: 0, < Q, = Q, multiples, random
-			cnt := []int{0, int(q) - 1, int(q), int(q) + 1, 2 * int(q), r.Intn(3*int(q) + 1)}[r.Intn(6)]
+			var cnt int
+			if huge {
+				cnt = r.Intn(6)
+			} else {
+				cnt = []int{0, int(q) - 1, int(q), int(q) + 1, 2 * int(q), r.Intn(3*int(q) + 1)}[r.Intn(6)]
+			}
 			if cnt > 0 {
 				var xs []string
 				for j := 0; j < cnt; j++ {
